@@ -160,7 +160,7 @@ def build_operator(n, objective):
     if form == "sum":
         return SparsePauliOp.sum([SparsePauliOp.from_sparse_list([t], n) for t in sparse])
     op = SparsePauliOp.from_sparse_list(sparse, n)
-    return op.simplify() if form == "plain" else op
+    return op.simplify(atol=0.0, rtol=0.0) if form == "plain" else op  # merge equal strings, never drop a small term
 
 
 def gen_objective_op(rng, n, letters, diagonal):
@@ -183,7 +183,44 @@ def gen_objective_op(rng, n, letters, diagonal):
         terms += [[str(w), [list(x) for x in t]], [str(-w), [list(x) for x in t]]]
         terms += [[str(Fraction(rng.randint(-4, 4), 2)), []], [str(Fraction(rng.randint(1, 4), 4)), []]]  # identity twice
         rng.shuffle(terms)
-    return {"op": terms, "form": form}
+    return scale_objective(rng, {"op": terms, "form": form}, estimator=not diagonal)
+
+
+SCALE_EXPONENTS = [-12, -9, -6, 6, 12]
+
+
+def scale_objective(rng, objective, estimator=False):
+    """Operator-scale family: the whole objective times 10^k, or (operators) some terms times 1e-9 next to O(1) terms.
+    The oracle and the model comparison are relative to the objective's scale.
+    Estimator path: Qiskit's own pub coercion (ObservablesArray.coerce -> observable.simplify(), atol 1e-8) drops every
+    merged coefficient <= 1e-8 and raises "Empty observable was detected" if nothing is left — that absolute resolution
+    belongs to the Qiskit estimator interface, before any primitive runs; there the family stays above it (1e-6)."""
+    r = rng.random()
+    small = 6 if estimator else 9
+    if r < 0.35:
+        k = rng.choice([-6, -6, 6, 12] if estimator else SCALE_EXPONENTS)
+        f = Fraction(10) ** k
+        if "op" in objective:
+            objective["op"] = [[str(Fraction(c) * f), t] for c, t in objective["op"]]
+        else:
+            objective["table"] = [str(Fraction(x) * f) for x in objective["table"]]
+        objective["scale"] = f"1e{k}"
+    elif r < 0.5 and "op" in objective and len(objective["op"]) >= 2:
+        idx = set(rng.sample(range(len(objective["op"])), rng.randint(1, len(objective["op"]) - 1)))
+        objective["op"] = [[str(Fraction(c) * Fraction(1, 10 ** small)) if i in idx else c, t] for i, (c, t) in enumerate(objective["op"])]
+        objective["scale"] = f"mixed-1e-{small}"
+    return objective
+
+
+def objective_scale(objective):
+    """Sum of |coefficients| of an operator / max |entry| of a table: what 'resolution' is relative to."""
+    if "op" in objective:
+        return sum(abs(Fraction(c)) for c, _ in objective["op"])
+    return max(abs(Fraction(x)) for x in objective["table"])
+
+
+REL_EXACT = Fraction(1, 10 ** 12)    # dyadic distributions + exact primitives: only float rounding is left
+REL_FLOAT = Fraction(1, 10 ** 9)
 
 
 def gen_terms(rng, n, letters):
@@ -358,14 +395,14 @@ def gen_case(rng, family, kind, shape_name, shape):
         if kind == "opsampler":
             case["objective"] = gen_objective_op(rng, n, ["Z"], diagonal=True)
         else:
-            case["objective"] = {"table": [str(Fraction(rng.randint(-16, 16), rng.choice([1, 2, 4]))) for _ in range(2 ** n)]}
+            case["objective"] = scale_objective(rng, {"table": [str(Fraction(rng.randint(-16, 16), rng.choice([1, 2, 4]))) for _ in range(2 ** n)]})
         if n_callers > 1 and rng.random() < 0.75:
             # different evaluators share the one wrapped sampler: own shots (every caller a different power of two), kind, alpha
             pool = [64, 256, 1024, 4096] if family == "classical" or case["sampler_mode"] == "fractional" else [1 << 14, 1 << 15, 1 << 16, 1 << 17]
             for cl, sh in zip(callers, rng.sample(pool, n_callers)):
                 k = rng.choice(["opsampler", "bits"])
                 c = {"kind": k, "shots": sh, "alpha": rng.choice(["1", "1/2", "1/2", "1/4"])}
-                c["objective"] = gen_objective_op(rng, n, ["Z"], diagonal=True) if k == "opsampler" else {"table": [str(Fraction(rng.randint(-16, 16), rng.choice([1, 2, 4]))) for _ in range(2 ** n)]}
+                c["objective"] = gen_objective_op(rng, n, ["Z"], diagonal=True) if k == "opsampler" else scale_objective(rng, {"table": [str(Fraction(rng.randint(-16, 16), rng.choice([1, 2, 4]))) for _ in range(2 ** n)]})
                 cl["cfg"] = c
     return case
 
@@ -516,8 +553,7 @@ def oracle_values(case, ci):
         if kind == "est":
             op = build_operator(n, objective)
             v = float(sv.expectation_value(op).real)
-            scale = sum(abs(Fraction(c)) for c, _ in objective["op"])
-            out.append((v, 1e-9 * max(1.0, float(scale))))
+            out.append((v, float((REL_EXACT if case["family"] == "classical" else REL_FLOAT) * objective_scale(objective))))
             continue
         probs = sv.probabilities_dict()
         alpha = Fraction(c["alpha"])
@@ -540,9 +576,9 @@ def oracle_values(case, ci):
             vals = {k: table[int(k, 2)] for k in fr}
             V = float(max(abs(x) for x in table))
         v = float(cvar([(vals[k], fr[k]) for k in fr], alpha))
-        V = max(V, 1.0)
+        V = float(objective_scale(objective))  # tolerances are relative to the objective's scale
         if case["family"] == "classical":
-            tol = 1e-9 * V
+            tol = float(REL_EXACT) * V
         else:
             tol = C14_SLACK * 2 * V / float(alpha) + 1e-9 * V
             if case["sampler_mode"] == "integer":  # every probability is off by < 1/shots
@@ -636,7 +672,7 @@ def g_case(case, ci, batches, expected, legacy=False):
     init = g_opt(g_circ(n, case["init"]) if case["init"] is not None else None)
     exp = f"(Ok {g_list(g_q(x) for x in expected)})" if not (isinstance(expected, tuple)) else f'(Err "{expected[1]}"%string)'
     return (f"mkcase ({kind}) {init} {g_list(g_circ(n, g) for g in cl['circuits'])} {g_list(g_params(p) for p in cl['params'])} "
-            f"{g_list(layers)} {g_bool(legacy)} {exp}")
+            f"{g_list(layers)} {g_bool(legacy)} {g_q(REL_FLOAT * objective_scale(me['objective']))} {exp}")
 
 
 # ----------------------------------------------------------------------------------------------- one case
@@ -850,6 +886,8 @@ def run(ctx):
                 ctx.tally("circuits-given-as-tuple")
         if "alpha" in case:
             ctx.tally("alpha:" + case["alpha"])
+        for k in range(len(case["callers"])):
+            ctx.tally("objective-scale:" + cfg(case, k)["objective"].get("scale", "1"))
         if "op" in case["objective"]:
             ctx.tally("opform:" + case["objective"].get("form", "plain"))
             labels = [json.dumps(sorted(t)) for _, t in case["objective"]["op"]]
